@@ -24,6 +24,12 @@ fn amd64_symbols(rule: &str) -> String {
 fn main() {
     install_panic_capture();
     let args: Vec<String> = std::env::args().collect();
+    if args[1].starts_with("arm") {
+        return arm_family(&args[1], &args[2], &args[3], &args[4]);
+    }
+    if args[1] == "x86" {
+        return x86(&args[2], &args[3]);
+    }
     let (archname, path, tracepath) = (args[1].as_str(), args[2].as_str(), args[3].as_str());
     let mut trace = std::io::BufWriter::new(std::fs::File::create(tracepath).unwrap());
     let mut rep = Report::new();
@@ -76,6 +82,166 @@ fn main() {
         }
         if send {
             let rec = obs_record(&spec, &inp, &words, obs.map_err(|e| e), ctx_ip);
+            writeln!(trace, "{}", rec).unwrap();
+        }
+    });
+    trace.flush().unwrap();
+    rep.finish();
+}
+
+// ------------------------------------------------------------------------------------------------ ARM / ARM64 (WalkerArm.tla)
+const SIG: i64 = 1073741824;
+fn arm_family(archname: &str, osname: &str, path: &str, tracepath: &str) {
+    let mut trace = std::io::BufWriter::new(std::fs::File::create(tracepath).unwrap());
+    let mut rep = Report::new();
+    let spec = arch_spec(archname);
+    let is64 = archname != "arm";
+    let p = spec.word as i64;
+    let (fpname, lrname, csname) = if is64 { ("x29", "x30", "x19") } else { ("r11", "lr", "r4") };
+    let val = |v: i64| -> u64 { if is64 && v >= SIG { ((v - SIG) as u64) | (0xABCDu64 << 48) } else { v as u64 } };
+    let os = if osname == "ios" { Os::Ios } else { Os::Linux };
+    let cfi = |rule: &str| -> String {
+        match rule {
+            "std" => format!(".cfa: sp {} + .ra: .cfa -{} + ^ {}: .cfa -{} + ^", 2 * p, p, fpname, 2 * p),
+            "lrleaf" => format!(".cfa: sp 0 + .ra: {}", lrname),
+            "nomem" => format!(".cfa: sp {} + .ra: 4194640", p),
+            "cfaonly" => format!(".cfa: sp {} + .ra: .cfa -{} + ^", 2 * p, p),
+            _ => panic!("rule"),
+        }
+    };
+    let mut n = 0u64;
+    for_each_case(path, "CASE", |c| {
+        n += 1;
+        let words: Vec<u64> = c["mem"].as_array().unwrap().iter().map(|v| val(v.as_i64().unwrap())).collect();
+        let f0 = &c["frames"][0];
+        let ctx_ip = val(f0["ip"].as_i64().unwrap());
+        let regs = vec![("pc".to_string(), ctx_ip), ("sp".to_string(), val(f0["sp"].as_i64().unwrap())), ("fp".to_string(), val(f0["fp"].as_i64().unwrap())),
+                        ("lr".to_string(), val(f0["lr"].as_i64().unwrap())), (csname.to_string(), f0["cs"].as_u64().unwrap())];
+        let valid: Vec<String> = f0["valid"].as_array().unwrap().iter().map(|v| match v.as_str().unwrap() { "cs" => csname.to_string(), o => o.to_string() }).collect();
+        let mut symbols = HashMap::new();
+        symbols.insert("m1".to_string(), format!("MODULE Linux arm 000 m1\nFUNC 100 100 0 f1\nFUNC 300 100 0 f2\nFUNC 500 100 0 f3\nSTACK CFI INIT 100 100 {}\nSTACK CFI INIT 500 100 {}\n",
+                                                 cfi(c["rule"].as_str().unwrap()), cfi("cfaonly")));
+        let built = !c["expect"].as_array().unwrap().is_empty();
+        let track: Vec<&'static str> = vec!["fp", "lr", if is64 { "x19" } else { "r4" }];
+        let inp = WalkInput { arch: spec.arch, os, regs, valid: Some(valid), stack_base: 0x10000, stack_bytes: words_to_bytes(&words, spec.word),
+                              modules: vec![("m1".into(), 0x400000, 0x1000), ("m2".into(), 0x500000, 0x1000)], symbols, track, frame_cap: words.len() * spec.word + 3 };
+        let obs = guarded(|| run_walk(&inp));
+        rep.evaluations += 1;
+        let model = c["frames"].as_array().unwrap();
+        let mut diff: Option<String> = None;
+        match &obs {
+            Err(pn) => diff = Some(format!("panic:{}", pn)),
+            Ok(o) => {
+                if o.frames.len() != model.len() { diff = Some("frame-count".into()); }
+                for (k, (r, m)) in o.frames.iter().zip(model.iter()).enumerate() {
+                    if diff.is_some() { break; }
+                    let mvalid: Vec<&str> = m["valid"].as_array().unwrap().iter().map(|v| v.as_str().unwrap()).collect();
+                    let mfp = mvalid.contains(&"fp") || mvalid.contains(&"fpn");
+                    let cs = &r.regs[if is64 { "x19" } else { "r4" }];
+                    if r.ip != val(m["ip"].as_i64().unwrap()) { diff = Some(format!("ip@{}", k.min(9))); }
+                    else if r.instr != val(m["instr"].as_i64().unwrap()) { diff = Some("instr".into()); }
+                    else if r.sp != val(m["sp"].as_i64().unwrap()) { diff = Some("sp".into()); }
+                    else if r.trust != m["trust"].as_str().unwrap() { diff = Some("trust".into()); }
+                    else if r.regs["fp"].is_some() != mfp { diff = Some("fp-validity".into()); }
+                    else if mfp && r.regs["fp"] != Some(val(m["fp"].as_i64().unwrap())) { diff = Some("fp-value".into()); }
+                    else if cs.is_some() != mvalid.contains(&"cs") { diff = Some("callee-saved-validity".into()); }
+                    else if cs.is_some() && *cs != Some(m["cs"].as_u64().unwrap()) { diff = Some("callee-saved-value".into()); }
+                    else if r.regs["lr"].is_some() != mvalid.contains(&"lr") { diff = Some("lr-validity".into()); }
+                    rep.class(&format!("frame:{}", r.trust));
+                }
+                if o.frames.len() > 1 { rep.nontrivial(&(c["mem"].to_string(), c["rule"].to_string(), f0.to_string())); }
+            }
+        }
+        rep.class(if built { "built" } else { "any" });
+        let send = diff.is_some() || n % 40 == 0 || built;
+        if let Some(d) = &diff {
+            let kind = if built { "walk-built" } else { "walk-any" };
+            let detail = json!({"arch": archname, "os": osname, "mem": c["mem"], "rule": c["rule"], "context": f0, "model_frames": model,
+                                "real_frames": obs.as_ref().ok().map(|o| o.frames.iter().map(|f| json!({"ip": f.ip, "instr": f.instr, "sp": f.sp, "regs": format!("{:?}", f.regs), "trust": f.trust})).collect::<Vec<_>>())});
+            if built { rep.mismatch(&format!("{}:{}:{}", kind, archname, d), detail); } else { rep.drift(json!({"what": d, "detail": detail})); }
+        } else if built && rep.samples.len() < 5 && model.len() >= 4 {
+            rep.sample(json!({"arch": archname, "os": osname, "stack_words": c["mem"], "chain": c["expect"]}));
+        }
+        if send {
+            let mut rec = obs_record(&spec, &inp, &words, obs.map_err(|e| e), ctx_ip);
+            rec["arch"] = json!(archname);
+            writeln!(trace, "{}", rec).unwrap();
+        }
+    });
+    trace.flush().unwrap();
+    rep.finish();
+}
+
+// ------------------------------------------------------------------------------------------------ x86 (WalkerX86.tla)
+fn x86(path: &str, tracepath: &str) {
+    let mut trace = std::io::BufWriter::new(std::fs::File::create(tracepath).unwrap());
+    let mut rep = Report::new();
+    let spec = arch_spec("x86");
+    let unwind = |rule: &str| -> &'static str {
+        match rule {
+            "win_std" => "STACK WIN 4 100 100 0 0 c 0 0 0 1 $T0 $ebp = $eip $T0 4 + ^ = $ebp $T0 ^ = $esp $T0 8 + =",
+            "win_ra" => "STACK WIN 4 100 100 0 0 c 0 4 0 1 $T0 .raSearch = $eip $T0 ^ = $esp $T0 4 + =",
+            "fpo" => "STACK WIN 0 100 100 0 0 c 0 4 0 0 0",
+            "fpo_bp" => "STACK WIN 0 100 100 0 0 c 8 0 0 0 1",
+            "cfi" => "STACK CFI INIT 100 100 .cfa: $esp 8 + .ra: .cfa 4 - ^ $ebp: .cfa 8 - ^",
+            _ => panic!("rule"),
+        }
+    };
+    let mut n = 0u64;
+    for_each_case(path, "CASE", |c| {
+        n += 1;
+        let words: Vec<u64> = c["mem"].as_array().unwrap().iter().map(|v| v.as_u64().unwrap()).collect();
+        let f0 = &c["frames"][0];
+        let ctx_ip = f0["ip"].as_u64().unwrap();
+        let regs = vec![("eip".to_string(), ctx_ip), ("esp".to_string(), f0["sp"].as_u64().unwrap()), ("ebp".to_string(), f0["bp"].as_u64().unwrap()),
+                        ("ebx".to_string(), f0["bx"].as_u64().unwrap()), ("esi".to_string(), 0x5151), ("edi".to_string(), 0xd1d1)];
+        let valid: Vec<String> = f0["valid"].as_array().unwrap().iter().map(|v| v.as_str().unwrap().to_string()).collect();
+        let mut symbols = HashMap::new();
+        symbols.insert("m1".to_string(), format!("MODULE windows x86 000 m1\nFUNC 100 100 0 f1\nFUNC 300 100 8 f2\n{}\n", unwind(c["rule"].as_str().unwrap())));
+        let built = !c["expect"].as_array().unwrap().is_empty();
+        let inp = WalkInput { arch: spec.arch, os: Os::Windows, regs, valid: Some(valid), stack_base: 0x10000, stack_bytes: words_to_bytes(&words, spec.word),
+                              modules: vec![("m1".into(), 0x400000, 0x1000), ("m2".into(), 0x500000, 0x1000)], symbols, track: spec.track.clone(), frame_cap: words.len() * spec.word + 3 };
+        let obs = guarded(|| run_walk(&inp));
+        rep.evaluations += 1;
+        let model = c["frames"].as_array().unwrap();
+        let mut diff: Option<String> = None;
+        match &obs {
+            Err(pn) => diff = Some(format!("panic:{}", pn)),
+            Ok(o) => {
+                if o.frames.len() != model.len() { diff = Some("frame-count".into()); }
+                for (k, (r, m)) in o.frames.iter().zip(model.iter()).enumerate() {
+                    if diff.is_some() { break; }
+                    let mvalid: Vec<&str> = m["valid"].as_array().unwrap().iter().map(|v| v.as_str().unwrap()).collect();
+                    let mps = m["psize"].as_i64().unwrap();
+                    if r.ip != m["ip"].as_u64().unwrap() { diff = Some(format!("ip@{}", k.min(9))); }
+                    else if r.instr != m["instr"].as_u64().unwrap() { diff = Some("instr".into()); }
+                    else if r.sp != m["sp"].as_u64().unwrap() { diff = Some("sp".into()); }
+                    else if r.trust != m["trust"].as_str().unwrap() { diff = Some("trust".into()); }
+                    else if r.regs["ebp"].is_some() != mvalid.contains(&"ebp") { diff = Some("ebp-validity".into()); }
+                    else if r.regs["ebp"].is_some() && r.regs["ebp"] != m["bp"].as_u64() { diff = Some("ebp-value".into()); }
+                    else if r.regs["ebx"].is_some() != mvalid.contains(&"ebx") { diff = Some("ebx-validity".into()); }
+                    else if r.regs["ebx"].is_some() && r.regs["ebx"] != m["bx"].as_u64() { diff = Some("ebx-value".into()); }
+                    else if r.regs["esi"].is_some() != mvalid.contains(&"esi") || r.regs["edi"].is_some() != mvalid.contains(&"edi") { diff = Some("esi-edi-validity".into()); }
+                    else if r.psize.map(|x| x as i64).unwrap_or(-1) != mps { diff = Some("parameter-size".into()); }
+                    rep.class(&format!("frame:{}", r.trust));
+                }
+                if o.frames.len() > 1 { rep.nontrivial(&(c["mem"].to_string(), c["rule"].to_string(), f0.to_string())); }
+            }
+        }
+        rep.class(if built { "built" } else { "any" });
+        rep.class(&format!("rule:{}", c["rule"].as_str().unwrap()));
+        let send = diff.is_some() || n % 40 == 0 || built;
+        if let Some(d) = &diff {
+            let kind = if built { "walk-built" } else { "walk-any" };
+            let detail = json!({"arch": "x86", "mem": c["mem"], "rule": c["rule"], "context": f0, "model_frames": model,
+                                "real_frames": obs.as_ref().ok().map(|o| o.frames.iter().map(|f| json!({"ip": f.ip, "instr": f.instr, "sp": f.sp, "regs": format!("{:?}", f.regs), "psize": f.psize, "trust": f.trust})).collect::<Vec<_>>())});
+            if built { rep.mismatch(&format!("{}:x86:{}", kind, d), detail); } else { rep.drift(json!({"what": d, "detail": detail})); }
+        } else if built && rep.samples.len() < 5 && model.len() >= 4 {
+            rep.sample(json!({"arch": "x86", "rule": c["rule"], "stack_words": c["mem"], "chain": c["expect"]}));
+        }
+        if send {
+            let mut rec = obs_record(&spec, &inp, &words, obs.map_err(|e| e), ctx_ip);
+            rec["arch"] = json!("x86");
             writeln!(trace, "{}", rec).unwrap();
         }
     });
